@@ -209,12 +209,17 @@ def _propagate_aliases(t: ast.AST) -> ast.AST:
                 depth += 1
             if depth >= 1 and isinstance(chain, ast.Name) and chain.id in ("self", "cls"):
                 vals[n.targets[0].id] = v
+            elif isinstance(v, (ast.BoolOp, ast.Compare)) or (isinstance(v, ast.UnaryOp) and isinstance(v.op, ast.Not)):
+                # a condition given a name (`range_applies = a and (b or c)` ... `if range_applies:`) is that condition
+                uses = [u for u in ast.walk(t) if isinstance(u, ast.Name) and u.id == n.targets[0].id and isinstance(u.ctx, ast.Load)]
+                if 1 <= len(uses) <= 2:
+                    vals[n.targets[0].id] = v
     if not vals:
         return t
 
     class R(ast.NodeTransformer):
         def visit_Assign(self, n):
-            if len(n.targets) == 1 and isinstance(n.targets[0], ast.Name) and n.targets[0].id in vals and n.value is vals[n.targets[0].id]:
+            if len(n.targets) == 1 and isinstance(n.targets[0], ast.Name) and n.targets[0].id in vals:
                 return None
             self.generic_visit(n)
             return n
@@ -224,6 +229,10 @@ def _propagate_aliases(t: ast.AST) -> ast.AST:
                 return copy.deepcopy(vals[n.id])
             return n
 
+    # definitions may mention other propagated locals: resolve them first (bounded), then rewrite the uses
+    for _ in range(3):
+        for k_ in list(vals):
+            vals[k_] = R().visit(copy.deepcopy(vals[k_])) if not isinstance(vals[k_], ast.Name) or vals[k_].id not in vals else copy.deepcopy(vals[vals[k_].id])
     t2 = R().visit(t)
     for n in ast.walk(t2):
         for fld in ("body", "orelse", "finalbody"):
@@ -395,7 +404,8 @@ def fingerprint(fn: FuncInfo, shared_names: Set[str], _depth: int = 0, _outer: T
             helper = _helper_of(fn, n) if _depth < 3 else None
             if helper is not None:
                 fp.update(fingerprint(helper, shared_names, _depth + 1, g))
-            elif name in shared_names:
+            elif name in shared_names and not (name.startswith("_") and not name.startswith("__")):
+                # (constructing a private holder / calling a private name is not an effect of its own)
                 args = [_txt(x) for x in n.args if _txt(x) not in ("REQ", "start_response", "receive", "send")]
                 kws = sorted(_txt(ast.keyword(arg=k.arg, value=k.value)) if False else f"{ {'environ': 'req', 'scope': 'req'}.get(k.arg, k.arg) }={_txt(k.value)}" for k in n.keywords)
                 fp[("call", name, tuple(args), tuple(kws), g)] += 1
